@@ -124,8 +124,12 @@ def run(pid, tier, seed):
         if not objs:
             continue
         k = ks[i % len(ks)]
-        t = eng.impl_infer(objs, k)
-        tree = tyconv.ty_to_tree(t, eng.tbl)
+        try:
+            t = eng.impl_infer(objs, k)
+            tree = tyconv.ty_to_tree(t, eng.tbl)
+        except Exception as e:
+            chk.fail("raised", dict(ic.case_json(k, ds), error=repr(e)[:300]))
+            continue
         for o, d in list(zip(objs, ds))[:2] + list(zip(objs2, ds2))[:3]:
             reqs.append(("conforms", tree, d))
             expect.append((oracle.conforms(o, t), sexp.dumps(tree), sexp.dumps(d)))
